@@ -64,7 +64,8 @@ def law_tensordot(ch):
     import autoray as ar
     import symmray as sr
 
-    pair = ch.draw(gen.contraction_pairs(ferm=False, syms=ALLSYMS), "pair")
+    pair = ch.draw(gen.contraction_pairs(ferm=False, syms=ALLSYMS,
+                                         dtype="any"), "pair")
     axes_a, axes_b = list(pair["axes_a"]), list(pair["axes_b"])
     sa, sb = pair["a"], pair["b"]
     nda, ndb = len(sa["idxs"]), len(sb["idxs"])
@@ -157,6 +158,8 @@ def law_tensordot(ch):
         ch.count("accumulating")
     if "complex" in sa["dtype"]:
         ch.label("complex")
+    if "mixed" in (sa["dtype"], sb["dtype"]):
+        ch.label("mixed-dtype")
     ch.mark_nontrivial(n_aligned >= 1 and (sparse or mixed or unordered))
 
 
